@@ -174,4 +174,11 @@ def check_case(case) -> Result:
         r.fail("operand_mutated", "a state operand changed under a non in-place operation")
     if not np.array_equal(dop.data.numpy(), dd):
         r.fail("operand_mutated", "DenseOperator changed under a non in-place operation")
+    if not np.array_equal(sop.data.to_dense().numpy(), sd):
+        r.fail("operand_mutated:sparse", f"SparseOperator changed under a non in-place operation (sum / scaling by {z} / apply_to / expect): "
+                                         f"max change {np.abs(sop.data.to_dense().numpy() - sd).max():.3e}")
+    # and a second use of the same operands gives the same answers (history of two calls)
+    close(cut(lambda: z * sop).data.to_dense().numpy(), z * refO, "sparse_rmul:second_use")
+    close(cut(lambda: z * dop).data.numpy(), z * refO, "dense_rmul:second_use")
+    close(cut(lambda: z * A).data.numpy(), z * a, "rmul:second_use")
     return r
